@@ -535,6 +535,7 @@ pub fn c17(tier: &str) -> ! {
                         let b = replay(p, &choices);
                         if a.as_deref() == Some(clause.as_str()) && b.as_deref() == Some(clause.as_str()) {
                             validated += 1;
+                            rep.validated_findings += 1;
                         } else {
                             rep.machinery.push(format!("finding {} {} did not reproduce on replay: {:?} / {:?}", prog, clause, a, b));
                         }
